@@ -383,8 +383,47 @@ size_t LzmaSynth::emit(RangeEnc &rc, SynthRng &rng, size_t nsym, size_t max_out,
 	Bytes &o = *plain;
 	size_t start = o.size();
 	unsigned feat = 0;
+	size_t illegal_k = (size_t)-1;
+	if (rng.illegal_permille && rng.chance(rng.illegal_permille)) illegal_k = rng.chance(400) ? 0 : (size_t)rng.below(nsym < 40 ? nsym : 40);
 	for (size_t k = 0; k < nsym && o.size() - start < max_out; ++k) {
 		size_t left = max_out - (o.size() - start);
+		if (k == illegal_k && left >= 2) {
+			uint64_t in_dict0 = o.size() - dict_start;
+			uint64_t avail0 = in_dict0 < dict_size ? in_dict0 : dict_size;
+			unsigned ps0 = (unsigned)in_dict0 & ((1u << m.pb) - 1);
+			unsigned how = (unsigned)rng.below(3);   // 0 match, 1 short rep, 2 long rep0
+			if (how != 0 && m.rep[0] < avail0) how = 0;   // the rep would be legal here
+			uint32_t dist;
+			unsigned len = 1;
+			rc.bit(m.is_match[m.state][ps0], 1);
+			if (how == 0) {
+				dist = (uint32_t)(avail0 + (rng.chance(750) ? 0 : rng.below(3)));
+				len = 2 + (unsigned)rng.below(6);
+				if (len > left) len = (unsigned)left;
+				rc.bit(m.is_rep[m.state], 0);
+				m.rep[3] = m.rep[2]; m.rep[2] = m.rep[1]; m.rep[1] = m.rep[0]; m.rep[0] = dist;
+				len_enc(rc, m.len, ps0, len - LEN_MIN);
+				m.state = state_after_match(m.state);
+				dist_enc(rc, m, len - LEN_MIN, dist);
+			} else if (how == 1) {
+				dist = m.rep[0];
+				rc.bit(m.is_rep[m.state], 1); rc.bit(m.is_rep0[m.state], 0); rc.bit(m.is_rep0_long[m.state][ps0], 0);
+				m.state = state_after_shortrep(m.state);
+			} else {
+				dist = m.rep[0];
+				len = 2 + (unsigned)rng.below(6);
+				if (len > left) len = (unsigned)left;
+				rc.bit(m.is_rep[m.state], 1); rc.bit(m.is_rep0[m.state], 0); rc.bit(m.is_rep0_long[m.state][ps0], 1);
+				len_enc(rc, m.rep_len, ps0, len - LEN_MIN);
+				m.state = state_after_rep(m.state);
+			}
+			for (unsigned i = 0; i < len; ++i) {
+				size_t at = o.size();
+				o.push_back(at >= (size_t)dist + 1 && at - dist - 1 >= dict_start ? o[at - dist - 1] : 0);
+			}
+			++rng.illegal_emitted;
+			continue;
+		}
 		uint64_t in_dict = o.size() - dict_start;
 		uint64_t avail = in_dict < dict_size ? in_dict : dict_size;
 		size_t pos = o.size() - dict_start;
@@ -413,7 +452,7 @@ size_t LzmaSynth::emit(RangeEnc &rc, SynthRng &rng, size_t nsym, size_t max_out,
 			if (m.state >= 7) {
 				// after a match the literal is coded against the byte at rep0; make
 				// the two agree on a few leading bits now and then
-				unsigned mb = o[o.size() - m.rep[0] - 1];
+				unsigned mb = o.size() >= (size_t)m.rep[0] + 1 ? o[o.size() - m.rep[0] - 1] : 0;   // (out of range only after a deliberately illegal symbol)
 				if (rng.chance(400)) byte = (uint8_t)((mb & (0xFFu << rng.below(9))) | (byte & ~(0xFFu << rng.below(9))));
 				feat |= SF_MATCHED_LITERAL;
 				for (; i >= 0; --i) {
